@@ -19,6 +19,23 @@ def check(run):
     n = textcommon.judge(run, run.path("trace.ndjson"), keyfn)
     if st["bad"] and not run.observed:
         raise vlib.Infra("harness saw %d mismatches that TextTrace did not reject" % st["bad"])
+    # term / kind clause: what the library writes for every case value (JsonCodec.tla: WireOKWhy, WrittenNamesWhy)
+    run.tlc_eval("JsonRTGen", "rt_gen", consts={"Gob": "FALSE", "Tier": '"%s"' % run.tier}, timeout=3000)
+    run.vh(["c02-wire", run.spec_path("rt_cases.ndjson"), run.path("wire.ndjson")])
+    from props import c05
+    import shutil as _sh
+    _sh.copy(run.path("wire.ndjson"), run.spec_path("c05_trace.ndjson"))
+    r = run.tlc_eval("JsonCodecTrace", "c05_trace", timeout=3000)
+    v = r.json_lines()[-1]
+    wev = vlib.read_ndjson(run.path("wire.ndjson"))
+    if v["consumed"] != len(wev):
+        raise vlib.Infra("wire trace not fully consumed")
+    for b in v["bad"]:
+        ev = wev[b["l"] - 1]
+        for d in b["why"]:
+            run.observe("json-written:%s:%s" % (ev["in"].get("g"), d["t"]),
+                        "MarshalJSON (%s) of case %s wrote %s: %s" % (ev["via"], json.dumps(ev["lab"]), ev.get("bytes", "")[:200], d["t"]), dict(event=ev))
+    n += len(wev)
     for i, ev in enumerate(vlib.read_ndjson(run.path("trace.ndjson"))):
         if i % 50 == 3:
             run.sample({k: ev[k] for k in ("pos", "via", "syms", "in", "dec", "valid")})
@@ -26,7 +43,9 @@ def check(run):
                    rule="all strings over the alphabet of Text.tla plus an invalid-UTF-8 byte up to length %d (%d strings; length-3 strings on a "
                         "1/13 rotation of positions) x %d string-bearing positions x {ap.MarshalJSON, T.MarshalJSON}; bytes parsed with "
                         "encoding/json (duplicate detection, member-shape comparison against a benign string, string compared byte-exactly); "
-                        "disagreements and a sample of agreements judged by TextTrace.tla" % (3 if thorough else 2, nstr, st["positions"]))
+                        "disagreements and a sample of agreements judged by TextTrace.tla; term/kind clause: every case value of Cases.tla written by "
+                        "both MarshalJSON paths, parsed to a tagged tree and judged by JsonCodecTrace.tla (declared terms only, prescribed JSON kinds, "
+                        "no duplicate member, member names = those of the reference writer)" % (3 if thorough else 2, nstr, st["positions"]))
 
 
 def replay(run, path):
